@@ -12,8 +12,9 @@ def D(a, b):
 def diff(o, b):
     d = {"E": D(o.fields.E, b.fields.E), "H": D(o.fields.H, b.fields.H)}
     d["det"] = max([0.0] + [D(v, b.detector_states[k][kk]) for k, st in o.detector_states.items() for kk, v in st.items()])
-    d["psi"] = max([0.0] + [D(x, y) for k in o.fields.psi_E for x, y in zip(o.fields.psi_E[k], b.fields.psi_E[k])] +
-                   [D(x, y) for k in o.fields.psi_H for x, y in zip(o.fields.psi_H[k], b.fields.psi_H[k])])
+    # every other leaf of the time-dependent field state: CPML psi accumulators, dispersive polarisation buffers (P_curr, P_prev), ...
+    la, lb = jax.tree_util.tree_leaves(o.fields), jax.tree_util.tree_leaves(b.fields)
+    d["psi"] = 1e300 if len(la) != len(lb) else max([0.0] + [D(x, y) if np.shape(x) == np.shape(y) else 1e300 for x, y in zip(la, lb)])
     return d
 
 def run_case(c):
@@ -60,11 +61,12 @@ def run_case(c):
     t1, again = fdtdx.run_fdtd(arrays=base, objects=oc, config=cfg, key=KEY, show_progress=False)
     out["rerun"] = {"t": int(t1), **diff(again, base)}
     r = base.reset()
-    zero = max(float(np.abs(np.asarray(r.fields.E)).max()), float(np.abs(np.asarray(r.fields.H)).max()),
-               max([0.0] + [float(np.abs(np.asarray(v)).max()) for st in r.detector_states.values() for v in st.values()]),
-               max([0.0] + [float(np.abs(np.asarray(x)).max()) for k in r.fields.psi_E for x in r.fields.psi_E[k]]))
+    zero = max([0.0] + [float(np.abs(np.asarray(x)).max()) for x in jax.tree_util.tree_leaves(r.fields) if np.size(x)] +
+               [float(np.abs(np.asarray(v)).max()) for st in r.detector_states.values() for v in st.values() if np.size(v)])
     mats = max(D(r.inv_permittivities, arrays.inv_permittivities), D(r.inv_permeabilities, arrays.inv_permeabilities),
-               0.0 if arrays.electric_conductivity is None else D(r.electric_conductivity, arrays.electric_conductivity))
+               0.0 if arrays.electric_conductivity is None else D(r.electric_conductivity, arrays.electric_conductivity),
+               *[0.0 if getattr(arrays, n_, None) is None else D(getattr(r, n_), getattr(arrays, n_))
+                 for n_ in ("magnetic_conductivity", "dispersive_c1", "dispersive_c2", "dispersive_c3", "dispersive_c4")])
     out["reset"] = {"dynamic_maxabs": zero, "materials_diff": mats}
     return out
 
